@@ -1,7 +1,7 @@
 """Per-property configuration of the checks: parts (rapid drivers), case counts, shards and wall-clock budgets."""
 
-def part(name, pkg, test, execname, quick, thorough, inproc=False):
-    return dict(name=name, pkg=pkg, test=test, exec=execname, inproc=inproc, quick=quick, thorough=thorough)
+def part(name, pkg, test, execname, quick, thorough, inproc=False, enumerate=False):
+    return dict(name=name, pkg=pkg, test=test, exec=execname, inproc=inproc, quick=quick, thorough=thorough, enumerate=enumerate)
 
 PROPS = {
     "C01": dict(
@@ -73,6 +73,32 @@ PROPS = {
             part("der", "netprops", "TestC20Der", "C20.der", inproc=True,
                  quick=dict(checks=40000, shards=4, budget_s=300),
                  thorough=dict(checks=2000000, shards=16, budget_s=3000, shrink="2m")),
+        ],
+    ),
+    "C09": dict(
+        level="exploration",
+        exhaustive_thorough=True,
+        text="Exploration by generated search over the certificate attribute product (authority x validity x usage x names x pins x role x name mode): each peer certificate is built with the "
+             "standard library and judged by an independent decision procedure, then presented (1) to the function returned by ReceptorVerifyFunc, (2) in a real crypto/tls handshake whose "
+             "configurations were prepared by receptor from files, (3) in a DialContext/Accept on a two-node mesh with a mutually authenticated listener. The thorough tier enumerates the "
+             "complete product at level 1 (exhaustive over the listed attribute values, not over all certificates).",
+        note="Trusted: Go's crypto/x509 and crypto/tls; the reference decision procedure. A pin list that mixes a matching entry with an unusable (wrong-length) one is unconstrained. "
+             "EKU-absent certificates are acceptable for any role (Go semantics).",
+        technique="property-based testing (rapid) over a finite attribute product with a reference decision procedure; complete enumeration of the product in the thorough tier",
+        assumptions=["validity margins are two hours around the wall clock", "client-side DNS mode without a host name is not a usable TLS client configuration and is skipped at handshake level"],
+        parts=[
+            part("verify", "netprops", "TestC09Verify", "C09.verify", inproc=True,
+                 quick=dict(checks=6000, shards=4, budget_s=300),
+                 thorough=dict(checks=40000, shards=4, budget_s=1200, shrink="1m")),
+            part("enumerate", "netprops", "TestC09Enumerate", "C09.verify", inproc=True, enumerate=True,
+                 quick=None,
+                 thorough=dict(checks=0, shards=8, budget_s=1800)),
+            part("tls", "netprops", "TestC09TLS", "C09.tls", inproc=True,
+                 quick=dict(checks=600, shards=6, budget_s=300),
+                 thorough=dict(checks=12000, shards=12, budget_s=1800, shrink="1m")),
+            part("mesh", "netprops", "TestC09Mesh", "C09.mesh",
+                 quick=dict(checks=32, shards=8, budget_s=300),
+                 thorough=dict(checks=240, shards=8, budget_s=2400, shrink="2m")),
         ],
     ),
 }
